@@ -102,6 +102,37 @@ func (c *c01Case) encodeConsole() (out []byte, err error, panicked any) {
 	return out, nil, nil
 }
 
+// encodeConsoleAfterEarlierEntries builds the same encoder as encodeConsole, lets it encode a field-less entry and an
+// entry with other fields first, then the case's entry.
+func (c *c01Case) encodeConsoleAfterEarlierEntries() (out []byte, why string) {
+	defer func() {
+		if p := recover(); p != nil {
+			why = fmt.Sprintf("console EncodeEntry panicked on a used encoder: %v", p)
+		}
+	}()
+	enc := zapcore.NewConsoleEncoder(c.cs.cfg)
+	for _, round := range c.ctx {
+		enc = enc.Clone()
+		for _, f := range fieldsOf(round) {
+			f.AddTo(enc)
+		}
+	}
+	for _, fs := range [][]zapcore.Field{nil, {}, {zap.Int("earlier", 1), zap.Namespace("earlier-ns"), zap.Bool("b", true)}, nil} {
+		buf, err := enc.EncodeEntry(zapcore.Entry{Message: "earlier entry"}, fs)
+		if err != nil {
+			return nil, fmt.Sprintf("earlier entry failed: %v", err)
+		}
+		buf.Free()
+	}
+	buf, err := enc.EncodeEntry(c.ent, fieldsOf(c.site))
+	if err != nil {
+		return nil, fmt.Sprintf("EncodeEntry on a used encoder failed: %v", err)
+	}
+	out = append([]byte(nil), buf.Bytes()...)
+	buf.Free()
+	return out, ""
+}
+
 func propC16(t *rapid.T) {
 	c := genC01Case(t, cfgOpts{}, specOpts{faults: true, viaAny: true}, 2)
 	cs := c.cs
@@ -112,6 +143,13 @@ func propC16(t *rapid.T) {
 	out, err, p := c.encodeConsole()
 	if p != nil || err != nil {
 		t.Fatalf("console EncodeEntry failed: panic=%v err=%v\ncase: %s", p, err, c.render())
+	}
+	// an encoder is used for more than one entry: an earlier entry WITHOUT call-site fields (and one with) leaves
+	// the encoder - its context, the namespaces it left open - exactly as it was
+	if again, why := c.encodeConsoleAfterEarlierEntries(); why != "" {
+		t.Fatalf("%s\ncase: %s", why, c.render())
+	} else if !bytes.Equal(again, out) {
+		t.Fatalf("the same entry encoded by a console encoder that has encoded other entries before differs from a fresh encoder's output:\n fresh: %q\n used:  %q\ncase: %s", clipS(string(out)), clipS(string(again)), c.render())
 	}
 	sep := cs.cfg.ConsoleSeparator
 	if sep == "" {
